@@ -192,7 +192,8 @@ func checkC02(p *Prog, res *Result, tier string) {
 	sub1 := p.subResult("C01", tier)
 	for _, o := range sub1.Obls {
 		// .. which decide anything only if the engine evaluates them atomically with the write (C01-R6 <- C11-R1/R2)
-		if o.Rule == "C01-R3" || o.Rule == "C01-R4" || o.Rule == "C01-R6" {
+		// .. and only while the index record is never removed or replaced behind the back of a conditional write (C01-R1)
+		if o.Rule == "C01-R3" || o.Rule == "C01-R4" || o.Rule == "C01-R6" || o.Rule == "C01-R1" {
 			res.add("C02-R5", o.Rule+" "+o.Construct, o.Status, o.Pos, o.Detail)
 		}
 	}
